@@ -1,6 +1,8 @@
 mod a2mlgen;
 mod c01;
+mod c03;
 mod c13;
+mod c17;
 mod gen;
 mod gentool;
 mod sut;
@@ -12,7 +14,7 @@ mod tape;
 use runner::{CheckSpec, ScenarioPlan, Tier};
 
 fn all_checks() -> Vec<CheckSpec> {
-    vec![c01_spec(), c13_spec()]
+    vec![c01_spec(), c03_spec(), c13_spec(), c17_spec()]
 }
 
 fn c01_spec() -> CheckSpec {
@@ -33,6 +35,38 @@ fn c01_spec() -> CheckSpec {
             ScenarioPlan { scenario: Box::new(c01::C01Cycles { faults: false }), quick_runs: 12_000, thorough_runs: 1_000_000 },
             ScenarioPlan { scenario: Box::new(c01::C01Cycles { faults: true }), quick_runs: 6_000, thorough_runs: 400_000 },
         ],
+    }
+}
+
+fn c03_spec() -> CheckSpec {
+    CheckSpec {
+        property: "C03",
+        level: "fault_enumeration",
+        rule: "files that were valid when written (generated from the frozen grammar, with A2ML and IF_DATA, whole file or fragment) and were then damaged by storage faults. Scenario 1 enumerates per document every truncation point (quick: every point for documents <= 700 bytes, else 160 biased points plus every point inside the A2ML text) and every single-token drop / duplication / swap, under configurations entry {load_from_string, load, load_fragment, load_fragment_file} x strict x built-in A2ML spec {none, valid, damaged} (thorough: all configurations for every point). Scenario 2: seeded 1..3 byte-granular faults (bit flip, zero fill, garbage, lost / duplicated / swapped region, misdirected write) on UTF-8/16/32 encoded files, with read chunking and I/O faults. Oracle: the call returns Ok or Err; no panic, no arithmetic overflow (overflow checks on), fuel (4096 ticks per byte) not exhausted. evaluations = loads. Non-trivial: the fault changed the bytes. Distinct: (fault operator, lexical region class of the fault position, configuration, outcome class).",
+        assumptions: vec![
+            "damaged inputs are the closure of valid generated documents under the fault operators, not all byte strings: token soups and adversarial nesting depth are outside this fault model",
+            "fuel covers loops that pass a tick site (tokenizer, A2ML tokenizer/parser loops, parser token cursor); tick-free loops are not covered",
+        ],
+        real_components: vec!["a2lfile: tokenizer, loader, parser, generated parsers, ifdata, a2ml (all four load entry points)", "std Read::read_to_end"],
+        stubbed_components: vec!["file system (in-memory VFS)", "OS randomness feeding std RandomState"],
+        expected_probes: vec!["truncation-inside-a2ml-text", "fault-inside-a2ml-text"],
+        plans: vec![
+            ScenarioPlan { scenario: Box::new(c03::C03Enumerate), quick_runs: 320, thorough_runs: 3_000 },
+            ScenarioPlan { scenario: Box::new(c03::C03RandomFaults), quick_runs: 30_000, thorough_runs: 1_500_000 },
+        ],
+    }
+}
+
+fn c17_spec() -> CheckSpec {
+    CheckSpec {
+        property: "C17",
+        level: "exploration",
+        rule: "generated documents with non-ASCII and non-BMP characters in strings and comments, padded to every length residue mod 4, encoded as UTF-8, UTF-8+BOM, UTF-16LE/BE with/without BOM, UTF-32LE/BE with/without BOM or Latin-1 bytes that are invalid UTF-8, stored in the simulated file system and read under a chunking schedule (whole, 1 byte, random, exactly len, len +- 1) with benign read-path faults (EINTR, short read, fstat size lie). Oracle: load(file) and load_from_string(decoded text) give equal models and the same diagnostic classes, or fail with the same error class. Totality: the encoded bytes after one storage fault load without panic. Non-trivial: non-ASCII content or an encoding other than plain UTF-8. Distinct: (encoding, length mod 4, non-BMP present, chunk class, fault kinds fired, outcome).",
+        assumptions: vec!["first character of every document is ASCII, as the format requires", "Latin-1 variants that happen to be valid UTF-8 are compared against the UTF-8 reading (inherent ambiguity, counted by a probe)"],
+        real_components: vec!["a2lfile: loader (read_data, decode_raw_bytes, BOM strip), load/load_fragment_file and everything behind them", "std Read::read_to_end retry/growth loop"],
+        stubbed_components: vec!["file system (in-memory VFS)", "OS randomness feeding std RandomState"],
+        expected_probes: vec!["EINTR-retried", "latin1-fallback-exercised"],
+        plans: vec![ScenarioPlan { scenario: Box::new(c17::C17Encodings), quick_runs: 20_000, thorough_runs: 2_000_000 }],
     }
 }
 
